@@ -134,13 +134,19 @@ def check_word(task):
 
 
 # ------------------------------------------------------------------ sensor observers: a common rigid motion changes nothing
-SENS_KINDS = ["static", "wobble", "rotpath", "micro"]
+SENS_KINDS = ["static", "wobble", "rotpath", "micro", "left_id", "left_rot"]
 
 
 def mk_sensor(skind):
     import magpylib as magpy
 
     s = magpy.Sensor(pixel=[(0.1, 0.2, 0.3), (-0.2, 0.1, 0.0), (0.0, 0.0, 0.0)], position=(1.4, -0.8, 0.9))
+    if skind == "left_id":     # left-handed and exactly unrotated (translated only): becomes rotated under a common motion
+        s.handedness = "left"
+        s.move([(0.1, 0.0, 0.05), (0.2, -0.1, 0.1)])
+        return s
+    if skind == "left_rot":
+        s.handedness = "left"
     s.rotate_from_rotvec((0.3, -0.2, 0.5), degrees=False)
     if skind == "wobble":      # orientations -a, +a about one axis: quaternions that mirror each other
         s.orientation = None
